@@ -128,7 +128,7 @@ func c02Eval(cs *c02Case, ts *tinyStats, bs *bnStats) (got, want string, err err
 		if cs.Kind == "full-small" {
 			f = ref.NewField(big.NewInt(cs.P))
 		}
-		shape, asg := cs.B.circuits()
+		shape, asg := cs.B.reduced(f).circuits()
 		got = "reject"
 		if gad.Solved(shape, asg, f.P) == nil {
 			got = "accept"
